@@ -47,6 +47,7 @@ std::vector<TaskRec> tasks;
 enum Phase { IDLE, IN_START, IN_CLEAR, IN_DRAIN, IN_STOP } phase = IDLE;
 bool stopped = false;          // stop() returned and no start() since
 int maxThreads = 1, last_run_id = -1, epoch = 0;
+int expiry = -1;               // -1: non-expiring workers (C07, most of C08); >= 0: expiry timeout in virtual milliseconds (C08 only)
 bool switch_in_run = false, stop_met_busy_worker = false;
 int tasks_running = 0;
 std::set<int> workers_this_epoch;
@@ -64,8 +65,10 @@ void task_run(int id, int yields) {
         last_run_id = id;
     }
     workers_this_epoch.insert(tid);
-    if ((int)workers_this_epoch.size() > maxThreads)
+    if (expiry < 0 && (int)workers_this_epoch.size() > maxThreads)      // (with expiry, workers come and go: the live count is checked instead)
         pviolation("C08", "TOO_MANY_THREADS", "%zu distinct worker threads ran tasks, maximum is %d", workers_this_epoch.size(), maxThreads);
+    { int livew = 0; for (int w = 1; w < vsched::nthreads(); ++w) livew += vsched::state(w) != vsched::FINISHED;
+      if (livew > maxThreads) pviolation("C08", "TOO_MANY_THREADS", "%d worker threads are alive while task %d runs, maximum is %d", livew, id, maxThreads); }
     t.running = true; t.worker = tid; ++tasks_running;
     for (int i = 0; i < yields; ++i) vsched::yield();
     t.running = false; t.done = true; --tasks_running;
@@ -107,10 +110,13 @@ void pool_deadlock() {
 void pool_switch(int, int) { if (tasks_running > 0) switch_in_run = true; }
 void on_steps() { internal_error("scheduler step limit reached"); }
 
-enum PK { START_TASK = 0, START_FUNCTOR, CLEAR, DRAIN, STOP, GETTERS, OWNER_YIELD };
+enum PK { START_TASK = 0, START_FUNCTOR, CLEAR, DRAIN, STOP, GETTERS, OWNER_YIELD, ADVANCE_TIME, UPDATE };
 
 void run_pool(const Case &c) {
     maxThreads = 1 + (unsigned)hget(c, 0, 0) % 6;
+    { static const int ex[] = {-1, 0, 5, 20}; expiry = g_prop == "C08" ? ex[(unsigned)hget(c, 1, 0) % 4] : -1; }
+    if (expiry >= 0) label("expiring_workers");
+    bool advanced_since_restart = false;
     static int counter;   // lvalue argument of functor tasks; outlives everything
     counter = 0;
     int functor_runs_expected = 0;
@@ -119,12 +125,14 @@ void run_pool(const Case &c) {
     vsched::begin(c.sched.data(), c.sched.size());
     {
         auto pool = std::make_unique<ThreadPool>();
-        pool->setExpiryTimeout(-1);
+        pool->setExpiryTimeout(expiry);
         pool->setMaxThreadCount(maxThreads);
         auto after_op = [&](const char *what) {
             int n = pool->getThreadCount();
             if (n > maxThreads) pviolation("C08", "TOO_MANY_THREADS", "after %s getThreadCount() = %d, maximum is %d", what, n, maxThreads);
             if (n < 0) pviolation("C08", "THREAD_COUNT", "getThreadCount() = %d", n);
+            int livew = 0; for (int w = 1; w < vsched::nthreads(); ++w) livew += vsched::state(w) != vsched::FINISHED;
+            if (livew > maxThreads) pviolation("C08", "TOO_MANY_THREADS", "after %s %d worker threads are alive, maximum is %d", what, livew, maxThreads);
         };
         auto do_stop = [&] {
             // is a worker alive and not parked (idle about to wait, waking up, or running a task)?
@@ -144,6 +152,7 @@ void run_pool(const Case &c) {
                 if (vsched::state(t) != vsched::FINISHED) pviolation("C08", "NOT_QUIESCENT", "worker thread t%d has not exited when stop() returned", t);
             ++epoch; workers_this_epoch.clear(); last_run_id = -1;
             if (pool->isRunning()) pviolation("C08", "NOT_QUIESCENT", "isRunning() is true after stop()");
+            advanced_since_restart = false;
         };
         int since_stop = 0;
         for (const Op &o : c.ops) {
@@ -166,6 +175,9 @@ void run_pool(const Case &c) {
                 after_op("clear()"); label("clear"); count_ops();
                 break;
             case DRAIN: {
+                // with expiring workers a task can legitimately stay queued behind expired, not yet reaped workers (outside C08);
+                // waiting for all work is only meaningful while no virtual time has passed since the last (re)start
+                if (expiry >= 0 && advanced_since_restart) { count_skipped(); break; }
                 phase = IN_DRAIN; note("owner drain");
                 vsched::wait_until([] { for (auto &t : tasks) if (!t.done && !t.dtors) return false; return true; });
                 phase = IDLE;
@@ -179,11 +191,26 @@ void run_pool(const Case &c) {
             case GETTERS: {
                 int a = pool->getActiveThreadCount(), n = pool->getThreadCount();
                 if (a > n) pviolation("C08", "THREAD_COUNT", "getActiveThreadCount() = %d > getThreadCount() = %d", a, n);
-                if (pool->getMaxThreadCount() != maxThreads || pool->getExpiryTimeout() != -1) pviolation("C08", "THREAD_COUNT", "configuration getters changed");
+                if (pool->getMaxThreadCount() != maxThreads || pool->getExpiryTimeout() != expiry) pviolation("C08", "THREAD_COUNT", "configuration getters changed");
                 after_op("getters"); count_ops();
                 break;
             }
             case OWNER_YIELD: vsched::yield(); count_ops(); break;
+            case ADVANCE_TIME: {
+                if (expiry < 0) { count_skipped(); break; }
+                static const long steps[] = {1, 6, 25, 100};
+                vsched::advance_time_ms(steps[(unsigned)o.b % 4]); advanced_since_restart = true; label("time_advanced");
+                note("owner: %ld ms pass", steps[(unsigned)o.b % 4]); count_ops();
+                break;
+            }
+            case UPDATE: {
+                int before = pool->getThreadCount();
+                note("owner update()"); pool->update();
+                if (o.c & 1) vsched::yield();
+                if (pool->getThreadCount() < before) label("update_reaped_expired_worker");
+                after_op("update()"); count_ops();
+                break;
+            }
             default: count_skipped();
             }
         }
